@@ -54,6 +54,14 @@ CLAIMS["C07"] = {
     "technique": "TLA+ stop-condition spec + TLC over all convergence traces; conformance of real condition calls and real stopped runs",
     "design_ref": "§5 C07",
 }
+CLAIMS["C03"] = {
+    "engine": "sched",
+    "level": "model_checking",
+    "text": "Reconstruct.tla is a knowledge (taint) model of one reverse step as coded in backward(): Restore (inner layer of every absorbing layer := recorded values), RevH, RevE with their stencil dependencies, ResetPml; a reverse update is exact only in plain cells (outside the layers, or the inner layer under the default-grading premise a=0, kappa=1). TLC checks InteriorReconstructed for every combination of face kinds (pml/wall/periodic) and thickness on a 2-D lattice over 3 reverse steps and rejects three negative instances (lossy inner layer, wrong record index, restore after the reverse updates). Real scenes (PML on face subsets incl. all six faces and corners, mixed with PEC/PMC/periodic, electric+magnetic dipoles, magnetic slab) are stepped forward with lossless interface recording and then backward step by step; TLC checks in Trace_Reconstruct the sweep order and that the measured interior residual of E and H is <= 1e-9 of the forward peak at every reverse step; the premise (a=0, 1/kappa=1 at the inner face) is checked on real PerfectlyMatchedLayer objects for every axis, side and thickness 1..20.",
+    "note": "The 2-D knowledge model over-approximates the 3-D stencil dependencies per axis; residuals are computed by the harness (numpy) and bounded by the trace spec. Scenes are a fixed family plus seeded random ones in the thorough tier.",
+    "technique": "TLA+ knowledge model of restore/reverse/reset + TLC; monitored residuals of real forward/backward sweeps",
+    "design_ref": "§5 C03",
+}
 NOT_APPLICABLE = {}
 
 # claim files (checks/Cxx.claim.json) written by builders are merged only after review by the coordinator
